@@ -41,7 +41,13 @@ Before finishing, VERIFY all of it yourself: apply patch -> build ok, full suite
 ADVICE = """Directions none of the earlier changes used much, as inspiration (pick whatever fits the property, or something else entirely): behaviour that depends on the execution context (block height or time, the gas meter, the event manager, check/simulate mode, a context value); an error that is converted, wrapped or compared (errors.Is / sentinel) so that one particular failure is mistaken for another; a value that is correct at one call site and stale at another (computed before a step that changes it); a rule applied on one of two paths that must agree (message vs genesis, query vs execution, validation vs execution, one route vs another, first element vs later elements of a list); aliasing (a slice, pointer or coin shared between two holders and modified by one); a default that differs from the explicit value (nil vs empty, zero vs unset, omitted proto field); a boundary of a type, a collection, a key encoding or an identifier grammar; an interaction between two features (fees and passthrough payload, pause and genesis, dust and a denomination-changing action, two transfers in the same block)."""
 
 
+ADVICE2 = """Directions that the earlier changes used least, as inspiration (pick whatever fits the property, or something else entirely): the configuration and state of the modules AROUND orbiter as the trigger (Hyperlane: hook types that charge fees, ISMs, token types, mailbox settings, router gas; CCTP: per-message burn limits, paused burning/messaging, token pairs, attesters; fiat-tokenfactory: pause, blocklist, minter allowances; bank: send restrictions, blocked module accounts, denom metadata, SendEnabled; ICS-20: send/receive switches, escrow accounting, channel/port identifiers) - i.e. a change in orbiter that is wrong only under a third-party configuration other than the simplest one; the module's own wiring and configuration (depinject.go, module.go, app.yaml: authority, which controllers are registered, service registration, the order of middleware); the gRPC/query path as opposed to keeper getters; the contents and order of events and logs; execution context (block height/time, gas, simulate/check mode); numeric boundaries between 2^31 and 2^256; exactly-N-operations effects (the 2nd, the 100th, the 101st); cleanup paths (what is deleted, reset or left behind when something is removed, unpaused, set back to its default)."""
+
+
 def main():
+    global ADVICE
+    if os.environ.get("SEED_ADVICE") == "2":
+        ADVICE = ADVICE2
     rd = os.path.abspath(sys.argv[1])
     ids = sys.argv[2:] or ["C%02d" % i for i in range(1, 21)]
     props = {}
